@@ -6,12 +6,15 @@ from . import wire
 METHODS = ["add", "remove", "change", "set", "call", "fetch", "unfetch", "get", "config", "info", "authenticate", "passwd"]
 
 ID_GRID = ["", "x", "a-long-id-" + "z" * 120, "\u00fc\u20ac", 0, -1, 1, 2147483647, 2147483648, 9007199254740992, 1.5, 1e10,
-           -0.0, 1e-7, -2147483649, 123456789012, 3e5]
+           -0.0, 1e-7, -2147483649, 123456789012, 3e5,
+           # whole numbers of 22..26 digits, both signs (as long as a number gets in plain notation; 15 significant digits at most)
+           -2e24, 2e24, -9e24, 1e25, -1e25, 1e22, -1e21, -123456789012345e10]
 NON_IDS = [None, True, False, {}, [], {"a": 1}, [1]]
 
 STRINGS = ["", "a", "a/b", "A", "\u00fc", "x" * 97, "x" * 98, "x" * 99, "x" * 100, "n" * 200, "p" * 400, "%s%s%n", "\\", "\"", "\u0001",
            "a\tb", "caseInsensitive", "id", "\U0001F600"]
-NUMBERS = [0, 1, -1, 0.001, 0.000999, 0.0015, 5, 1e9, 1.8e10, 1.9e10, 1e30, -1e30, 1e308, 2147483647, 2147483648, 4294967296, -0.5, 1e-300]
+NUMBERS = [0, 1, -1, 0.001, 0.000999, 0.0015, 5, 1e9, 1.8e10, 1.9e10, 1e30, -1e30, 1e308, 2147483647, 2147483648, 4294967296, -0.5, 1e-300,
+           -2e24, 9e24, -9.99e24, 1e25, -1e25, -1e21]
 
 
 def rnd_json(rng, depth=0):
